@@ -77,7 +77,7 @@ static long layout_offset(const L& idx, const L& shape, bool col) {
 // ---- the subject template ----------------------------------------------------------------------------------------------
 enum { N_CTOR_DEF, N_CTOR_COPY, N_ASSIGN, N_ASSIGN_SELF, N_RESIZE, N_WRITE };
 struct Op { int kind, slot, a; };
-template <class A, int SKIND, int BKIND, long SCAP, long BCAP, bool COL, bool LEGACY = false> struct NdSubject : Subject {
+template <class A, int SKIND, int BKIND, long SCAP, long BCAP, bool COL, bool LEGACY = false, bool GENERIC_RESIZE = false> struct NdSubject : Subject {
     // SCAP: fixed dim (FS, LS, CS) / dim capacity (HS); LS additionally: every extent <= 4.  BCAP: element count (FB) / capacity (HB)
     const char* nm_; std::vector<Op> ops; bool alive[2] = {false, false}; Model model[2]; bool cast_checked = false;
     NdSubject(const char* n) : nm_(n) {
@@ -149,7 +149,8 @@ template <class A, int SKIND, int BKIND, long SCAP, long BCAP, bool COL, bool LE
             const L& shp = menu()[(size_t)p.a]; bool want = representable(shp), got = false;
             if constexpr (SKIND != CS) {
                 Track tr;
-                if constexpr (LEGACY && SKIND == DS) { nmtools_list<size_t> sl; sl.resize(shp.size()); for (size_t i = 0; i < shp.size(); i++) nm::at(sl, i) = (size_t)shp[i]; x->resize(sl); got = true; }
+                if constexpr (LEGACY && SKIND == DS && GENERIC_RESIZE) { nmtools_static_vector<size_t, 4> sl; sl.resize(shp.size()); for (size_t i = 0; i < shp.size(); i++) nm::at(sl, i) = (size_t)shp[i]; x->resize(sl); got = true; }   // the generic index-array overload of dynamic_ndarray::resize
+                else if constexpr (LEGACY && SKIND == DS) { nmtools_list<size_t> sl; sl.resize(shp.size()); for (size_t i = 0; i < shp.size(); i++) nm::at(sl, i) = (size_t)shp[i]; x->resize(sl); got = true; }
                 else if constexpr (LEGACY) { if ((long)shp.size() == SCAP) { typename A::shape_type sl{}; for (size_t i = 0; i < shp.size(); i++) nm::at(sl, i) = (size_t)shp[i]; got = x->resize(sl); } else got = false; }
                 else { nmtools_list<size_t> sl; sl.resize(shp.size()); for (size_t i = 0; i < shp.size(); i++) nm::at(sl, i) = (size_t)shp[i]; got = x->resize(sl); }
             }
@@ -248,6 +249,7 @@ BOTH(ds_hb, ds_t, hb_t, DS, HB, 0, 8);
 BOTH(ds_db, ds_t, db_t, DS, DB, 0, 0);
 REGND(legacy_hybrid, NdSubject<na::hybrid_ndarray<T_, 8, 2>, FS, HB, 2, 8, false, true>);
 REGND(legacy_dynamic, NdSubject<na::dynamic_ndarray<T_>, DS, DB, 0, 0, false, true>);
+REGND(legacy_dynamic_generic_resize, NdSubject<na::dynamic_ndarray<T_>, DS, DB, 0, 0, false, true, true>);   // resize through the generic index-array overload (a seeded change left its cached strides stale)
 #endif
 
 static void bounds_sink(int site, long long i, long long n) { if ((i < 0 || i >= n) && g_hook_msg.empty()) g_hook_msg = "index " + S(i) + " used on a container / axis of extent " + S(n) + " (hook site " + S(site) + ")"; }
